@@ -195,6 +195,26 @@ fn main() {
             )
         };
         let merged = vcommon::run_isolated(exe, &child_args, n_cases, workers, &crash);
+        // every distinct violation key is reproduced once more in a fresh process before it is
+        // reported; a replay that does not reproduce is a machinery error, never a verdict
+        {
+            let mut seen = std::collections::BTreeSet::new();
+            for v in &merged.violations {
+                if !seen.insert(v.key.clone()) || seen.len() > 6 {
+                    continue;
+                }
+                let dname = v.case["definition"].as_str().unwrap_or("");
+                let cap = v.case["capacity"].as_str().unwrap_or("MAX_SIZE+0");
+                let di = defs.iter().position(|d| d.name == dname);
+                let ci = CAP_EXTRA.iter().position(|e| format!("MAX_SIZE+{}", e) == cap).unwrap_or(0);
+                if let Some(di) = di {
+                    let again = vcommon::run_single(exe, &child_args, di * 3 + ci, &crash);
+                    if !again.iter().any(|a| a.key == v.key) {
+                        vcommon::machinery_error(&format!("violation {} did not reproduce when {} was explored again in a fresh process", v.key, dname));
+                    }
+                }
+            }
+        }
         paths += merged.stats.get("paths").copied().unwrap_or(0);
         ops += merged.stats.get("operations").copied().unwrap_or(0);
         reads += merged.stats.get("field_reads").copied().unwrap_or(0);
